@@ -5,8 +5,9 @@
 use std::hash::{BuildHasher, Hash, Hasher};
 use zipora::containers::specialized::{EasyHashMap, GoldHashIdx, HashStrMap, SmallMap};
 use zipora::hash_map::{
-    advanced_hash_combine, bmi2_hash_combine_u64, extract_bucket_with_bmi2, fabo_hash_combine_u32, fabo_hash_combine_u64,
-    fast_string_hash_bmi2, hash_combine_with_bmi2, hash_with_bmi2, specialized, CombineStrategy, GoldHashMap,
+    advanced_hash_combine, bmi2_hash_combine_u32, bmi2_hash_combine_u64, extract_bucket_with_bmi2, extract_hash_bucket_bmi2,
+    fabo_hash_combine_u32, fabo_hash_combine_u64, fast_string_hash_bmi2, get_global_bmi2_dispatcher, hash_combine_with_bmi2,
+    hash_with_bmi2, specialized, Bmi2HashDispatcher, CombineStrategy, GoldHashMap,
     GoldHashMapConfig, HashCombinable, HashFunctionBuilder, IterationStrategy, LinkType, ZiporaHashMap, ZiporaHashMapConfig,
 };
 use zipora::string::FastStr;
@@ -15,9 +16,9 @@ use zipora::string::FastStr;
 // caller-supplied hashers (modes 0..9 mirrored by `hasher` in coq/C06/Model.v)
 // ---------------------------------------------------------------------------------------------
 pub const N_HASHERS: u64 = 10;
-/// modes 10..23: the hash functions of src/hash_map/hash_functions.rs used as the caller-supplied hash function
+/// modes 10..27: the hash functions of src/hash_map/hash_functions.rs used as the caller-supplied hash function
 /// (the property holds for any function of the key; no Coq mirror, oracle only)
-pub const N_LIB_HASHERS: u64 = 14;
+pub const N_LIB_HASHERS: u64 = 18;
 pub fn hash_mode(mode: u64, k: u64) -> u64 {
     match mode {
         0 => { let x = k.wrapping_mul(11400714819323198485); x ^ (x >> 32) }
@@ -43,7 +44,13 @@ pub fn hash_mode(mode: u64, k: u64) -> u64 {
         20 => (HashFunctionBuilder::new().with_strategy(CombineStrategy::Xor).build_u64())(k, k >> 3),
         21 => k.fabo_combine(3),
         22 => extract_bucket_with_bmi2(k.wrapping_mul(0x9e3779b97f4a7c15), 3) as u64, // eight hash values only
-        _ => (fabo_hash_combine_u32(k as u32, (k >> 32) as u32) as u64) ^ specialized::hash_tuple_bmi2(k as u32, (k >> 32) as u32) ^ specialized::hash_float_bmi2(k as f64),
+        23 => (fabo_hash_combine_u32(k as u32, (k >> 32) as u32) as u64) ^ specialized::hash_tuple_bmi2(k as u32, (k >> 32) as u32) ^ specialized::hash_float_bmi2(k as f64),
+        // 32-bit hash values (the upper half of the hash is always zero)
+        24 => ((HashFunctionBuilder::new().with_strategy(CombineStrategy::Bmi2).build_u32())(k as u32, (k >> 32) as u32) as u64) ^ (bmi2_hash_combine_u32(5, k as u32) as u64),
+        25 => { let d = get_global_bmi2_dispatcher(); d.hash_with_acceleration(k.to_be_bytes()) ^ d.hash_combine_optimal(1, k) }
+        // 64 resp. 32 hash values
+        26 => extract_hash_bucket_bmi2(k.wrapping_mul(0x9e3779b97f4a7c15), 6) as u64,
+        _ => { let d = Bmi2HashDispatcher::new(); (d.extract_bucket_optimal(k.wrapping_mul(0x9e3779b97f4a7c15) >> 7, 5) as u64) << (d.tier() as u64 % 3) }
     }
 }
 #[derive(Clone, Default)]
